@@ -21,6 +21,7 @@ type detBlock struct {
 	lang   string // "" (any target) or "go"
 	events string // "", "true", "false"
 	needs  map[string]bool
+	wants  []string // options this block needs switched on to reach the code it is aimed at
 	lexer  string
 	decls  string
 	rules  string
@@ -60,6 +61,8 @@ func loadDetBlocks(dir string) ([]*detBlock, error) {
 					for _, n := range strings.Fields(v) {
 						blk.needs[n] = true
 					}
+				case "wants":
+					blk.wants = append(blk.wants, strings.Fields(v)...)
 				}
 			case "lexer":
 				blk.lexer += line + "\n"
@@ -142,6 +145,12 @@ func composeDetGrammar(name string, blocks []*detBlock, src *sim.Src) (text, des
 	if lang != "go" {
 		events = true
 	}
+	want := map[string]bool{}
+	if len(blocks) > 0 {
+		for _, w := range blocks[0].wants {
+			want[w] = true
+		}
+	}
 	var opts, on []string
 	set := func(k string, v any) {
 		opts = append(opts, fmt.Sprintf("%s = %v", k, v))
@@ -155,16 +164,16 @@ func composeDetGrammar(name string, blocks []*detBlock, src *sim.Src) (text, des
 	}
 	set("eventBased", events)
 	if lang == "go" {
-		if events && src.Chance(1, 2) {
+		if events && (src.Chance(1, 2) || want["eventFields"] || want["eventAST"]) {
 			set("eventFields", true)
-			if src.Chance(1, 2) {
+			if src.Chance(1, 2) || want["eventAST"] {
 				set("eventAST", true)
 			}
 		}
 		// (the table optimiser of the tree at hand dies on lalr(k>=2) tables: C17 territory)
-		if src.Chance(1, 2) && parserK == 1 {
+		if (src.Chance(1, 2) || want["optimizeTables"] || want["defaultReduce"]) && parserK == 1 {
 			set("optimizeTables", true)
-			if src.Chance(1, 2) {
+			if src.Chance(1, 2) || want["defaultReduce"] {
 				set("defaultReduce", true)
 			}
 		}
@@ -178,10 +187,10 @@ func composeDetGrammar(name string, blocks []*detBlock, src *sim.Src) (text, des
 			set("cancellable", true)
 		}
 		set("recursiveLookaheads", true)
-		if src.Chance(1, 3) {
+		if src.Chance(1, 3) || want["nodePrefix"] {
 			set("nodePrefix", `"Nd"`)
 		}
-		if src.Chance(1, 4) {
+		if src.Chance(1, 4) || want["debugParser"] {
 			set("debugParser", true)
 		}
 		if src.Chance(1, 4) && !noBison {
@@ -306,6 +315,15 @@ func composeDetPool(cfg *config, n int) ([]detPool, map[string]string, error) {
 			for _, c := range chosen {
 				if c == blocks[j] {
 					dup = true
+				}
+			}
+			// a composition dedicated to a block that wants the table optimiser cannot take
+			// lalr(k) blocks (the optimiser is switched off for them, see above)
+			if i < len(blocks) && blocks[j].parser != "" {
+				for _, w := range chosen[0].wants {
+					if w == "optimizeTables" || w == "defaultReduce" {
+						dup = true
+					}
 				}
 			}
 			if !dup {
